@@ -5,6 +5,7 @@ import Driver.Proto
 Streams of C14.
   c14.sched  nHosts maxConns maxFails expiry unhealthyBits nThreads events
      expiry  0 failures not counted (fail_timeout 0) | 1 counted, never expiring within the run | 2 counted, expiring at once
+             | 3 counted, the event `w` waits for the oldest outstanding failure to expire
      events  comma list of  t:x   (thread t runs to its next blocking point; x = preferred backend / outcome code)
      out   = snapshots joined by ";" :  label|conns|fails|inflight   (lists joined by ",")
              label = sel:h none fwd:h lost:h fin:h:o noop final      o = ok err cancel big panic
@@ -16,11 +17,13 @@ def parseExpiry : String → Option Expiry
   | "0" => some .off
   | "1" => some .never
   | "2" => some .immediate
+  | "3" => some .delayed
   | _ => none
 
 def parseEvent (s : String) : Option (Nat × Nat) :=
   match s.splitOn ":" with
   | [t, x] => do pure (← t.toNat?, ← x.toNat?)
+  | ["w"] => some (waitMark, 0)
   | _ => none
 
 structure Case where
@@ -48,6 +51,7 @@ def showLabel : Label → String
   | .lost h => s!"lost:{h}"
   | .fin h o => s!"fin:{h}:{showOutcome o}"
   | .noop => "noop"
+  | .exp h => s!"exp:{h}"
   | .final => "final"
 
 def showInts (l : List Int) : String := ",".intercalate (l.map toString)
@@ -58,7 +62,7 @@ def showSnap (s : Snap) : String :=
 def schedModel (f : List String) : String :=
   match parseCase f with
   | none => "bad-case"
-  | some c => ";".intercalate ((replay c.cfg c.ex (State.init c.cfg c.nThreads) c.events).map showSnap)
+  | some c => ";".intercalate ((replay c.cfg c.ex (State.init c.cfg c.nThreads) [] c.events).map showSnap)
 
 def parseIntD (s : String) : Option Int :=
   if s.startsWith "-" then (s.drop 1).toNat?.map fun n => -(n : Int) else s.toNat?.map fun n => (n : Int)
@@ -78,6 +82,7 @@ def parseLabel (s : String) : Option Label :=
   | ["lost", h] => h.toNat?.map .lost
   | ["fin", h, o] => do pure (.fin (← h.toNat?) (← parseOutcome o))
   | ["noop"] => some .noop
+  | ["exp", h] => h.toNat?.map .exp
   | ["final"] => some .final
   | _ => none
 
